@@ -78,6 +78,43 @@ impl<T: PartialEq> HashSet<T> {
         self.items.push(t); self.seed = nondet_seed(); true
     }
 }
+// further std API, so that a tree refactored to use it still builds (semantics as in std; results
+// that are collections are returned in this instance's iteration order)
+impl<T: PartialEq> HashSet<T> {
+    pub fn with_capacity(_n: usize) -> Self { Self::new() }
+    pub fn clear(&mut self) { self.items.clear(); }
+    pub fn get(&self, t: &T) -> Option<&T> { self.items.iter().find(|x| *x == t) }
+    pub fn remove(&mut self, t: &T) -> bool {
+        match self.items.iter().position(|x| x == t) {
+            Some(i) => { self.items.remove(i); self.seed = nondet_seed(); true }
+            None => false,
+        }
+    }
+    pub fn retain<F: FnMut(&T) -> bool>(&mut self, f: F) { self.items.retain(f); self.seed = nondet_seed(); }
+    pub fn is_disjoint(&self, o: &Self) -> bool { !self.items.iter().any(|x| o.contains(x)) }
+    pub fn is_subset(&self, o: &Self) -> bool { self.items.iter().all(|x| o.contains(x)) }
+    pub fn is_superset(&self, o: &Self) -> bool { o.is_subset(self) }
+    pub fn intersection<'a>(&'a self, o: &'a Self) -> std::vec::IntoIter<&'a T> { self.iter().filter(|x| o.contains(x)).collect::<Vec<&T>>().into_iter() }
+    pub fn difference<'a>(&'a self, o: &'a Self) -> std::vec::IntoIter<&'a T> { self.iter().filter(|x| !o.contains(x)).collect::<Vec<&T>>().into_iter() }
+    pub fn union<'a>(&'a self, o: &'a Self) -> std::vec::IntoIter<&'a T> {
+        let mut v: Vec<&T> = self.iter().collect();
+        for x in o.iter() { if !self.contains(x) { v.push(x); } }
+        v.into_iter()
+    }
+}
+impl<T: PartialEq> Default for HashSet<T> { fn default() -> Self { Self::new() } }
+impl<T: PartialEq> IntoIterator for HashSet<T> {
+    type Item = T; type IntoIter = std::vec::IntoIter<T>;
+    fn into_iter(self) -> std::vec::IntoIter<T> {
+        let n = self.items.len();
+        let seed = self.seed;
+        let mut slots: Vec<Option<T>> = self.items.into_iter().map(Some).collect();
+        let mut out = Vec::with_capacity(n);
+        let mut i = 0;
+        while i < n { out.push(slots[perm_index(seed, n, i)].take().unwrap()); i += 1; }
+        out.into_iter()
+    }
+}
 impl<T: PartialEq> PartialEq for HashSet<T> {
     fn eq(&self, o: &Self) -> bool {
         self.items.len() == o.items.len() && self.items.iter().all(|x| o.contains(x))
@@ -137,6 +174,29 @@ impl<K: Eq, V> HashMap<K, V> {
         self.items.push((k, v)); self.seed = nondet_seed(); None
     }
 }
+impl<K: Eq, V> HashMap<K, V> {
+    pub fn with_capacity(_n: usize) -> Self { Self::new() }
+    pub fn clear(&mut self) { self.items.clear(); }
+    pub fn get_mut<Q: ?Sized + Eq>(&mut self, k: &Q) -> Option<&mut V> where K: Borrow<Q> {
+        for (a, b) in self.items.iter_mut() { if (*a).borrow() == k { return Some(b); } }
+        None
+    }
+    pub fn get_key_value<Q: ?Sized + Eq>(&self, k: &Q) -> Option<(&K, &V)> where K: Borrow<Q> {
+        for (a, b) in self.items.iter() { if a.borrow() == k { return Some((a, b)); } }
+        None
+    }
+    pub fn remove<Q: ?Sized + Eq>(&mut self, k: &Q) -> Option<V> where K: Borrow<Q> {
+        match self.items.iter().position(|(a, _)| a.borrow() == k) {
+            Some(i) => { self.seed = nondet_seed(); Some(self.items.remove(i).1) }
+            None => None,
+        }
+    }
+    pub fn retain<F: FnMut(&K, &mut V) -> bool>(&mut self, mut f: F) { self.items.retain_mut(|(k, v)| f(k, v)); self.seed = nondet_seed(); }
+    pub fn values_mut(&mut self) -> impl Iterator<Item = &mut V> { self.items.iter_mut().map(|(_, v)| v) }
+    pub fn iter_mut(&mut self) -> impl Iterator<Item = (&K, &mut V)> { self.items.iter_mut().map(|(k, v)| (&*k, v)) }
+    pub fn into_keys(self) -> impl Iterator<Item = K> { self.into_iter().map(|(k, _)| k) }
+    pub fn into_values(self) -> impl Iterator<Item = V> { self.into_iter().map(|(_, v)| v) }
+}
 impl<K: Eq, V: PartialEq> PartialEq for HashMap<K, V> {
     fn eq(&self, o: &Self) -> bool {
         self.items.len() == o.items.len() && self.items.iter().all(|(k, v)| o.get(k) == Some(v))
@@ -183,6 +243,11 @@ impl<T: ?Sized> AsRef<T> for Arc<T> { fn as_ref(&self) -> &T { self.h.r } }
 impl<T: ?Sized> Borrow<T> for Arc<T> { fn borrow(&self) -> &T { self.h.r } }
 impl<T> Arc<T> {
     pub fn new(t: T) -> Self { Arc::from_ref(Box::leak(Box::new(t))) }
+}
+impl<T: ?Sized> Arc<T> {
+    pub fn as_ptr(this: &Self) -> *const T { this.h.r as *const T }
+    /// the model does not count references (the crate never observes counts): reported as shared
+    pub fn strong_count(_this: &Self) -> usize { 2 }
 }
 impl<T: Clone> Arc<T> {
     pub fn make_mut(this: &mut Self) -> &mut T {
@@ -233,6 +298,12 @@ impl<T> RwLock<T> {
     pub fn new(t: T) -> Self { RwLock { v: core::cell::UnsafeCell::new(t) } }
     pub fn read(&self) -> Result<RwLockReadGuard<'_, T>, NeverPoisoned> { Ok(RwLockReadGuard { r: unsafe { &*self.v.get() } }) }
     pub fn write(&self) -> Result<RwLockWriteGuard<'_, T>, NeverPoisoned> { Ok(RwLockWriteGuard { r: unsafe { &mut *self.v.get() } }) }
+}
+impl<T> RwLock<T> {
+    pub fn try_read(&self) -> Result<RwLockReadGuard<'_, T>, NeverPoisoned> { self.read() }
+    pub fn try_write(&self) -> Result<RwLockWriteGuard<'_, T>, NeverPoisoned> { self.write() }
+    pub fn into_inner(self) -> Result<T, NeverPoisoned> { Ok(self.v.into_inner()) }
+    pub fn get_mut(&mut self) -> Result<&mut T, NeverPoisoned> { Ok(self.v.get_mut()) }
 }
 impl<T> From<T> for RwLock<T> { fn from(t: T) -> Self { RwLock::new(t) } }
 impl<T: fmt::Debug> fmt::Debug for RwLock<T> { fn fmt(&self, f: &mut fmt::Formatter<'_>) -> fmt::Result { unsafe { &*self.v.get() }.fmt(f) } }
